@@ -3,7 +3,7 @@ import numpy as np
 import nets
 
 PID = "C18"
-THEOREMS = ["outlet_own_label", "label_first_outlet", "streamorder_seeded", "area_seeded", "sto_outlet_condition", "area_outlet_condition", "area_own_bound", "area_own_bound_order_sort", "idxs_seq_level", "area_own_bound_idxs_seq", "area_own_bound_needs_level_order", "pfaf_digits", "pfaf_closure", "pfaf_main_stem_odd", "pfaf_tributary_even", "pfaf_refines", "gen_subbasins_area_eq", "gen_subbasins_streamorder_eq", "gen_subbasins_pfafstetter_eq"]
+THEOREMS = ["outlet_own_label", "label_first_outlet", "streamorder_seeded", "area_seeded", "sto_outlet_condition", "streamorder_outlets_masked", "area_outlet_condition", "area_own_bound", "area_own_bound_order_sort", "idxs_seq_level", "area_own_bound_idxs_seq", "area_own_bound_needs_level_order", "pfaf_digits", "pfaf_closure", "pfaf_main_stem_odd", "pfaf_tributary_even", "pfaf_refines", "gen_subbasins_area_eq", "gen_subbasins_streamorder_eq", "gen_subbasins_pfafstetter_eq"]
 RULE = ("loop-free closed graphs on n<=5 cells (n<=6 thorough), random forests to 60 cells and random D8 rasters through "
         "basins.subbasins_streamorder / subbasins_area / subbasins_pfafstetter and the FlwdirRaster methods: stream-order "
         "thresholds (absolute and relative), area thresholds 1/3/8, Pfafstetter depths 1..3, upstream-area fields with and "
@@ -42,6 +42,20 @@ def _is_level_order(ds, sq):
     return all(rk[sq[i]] <= rk[sq[i + 1]] for i in range(len(sq) - 1))
 
 
+def _sto_mask(rng, n):
+    """wire form of the optional mask of subbasins_streamorder: ([has_mask], 0/1 list); no mask in about half of the cases,
+    otherwise a random mask of random density, now and then all False or all True"""
+    if rng.random() < 0.5:
+        return [0], []
+    r = rng.random()
+    if r < 0.1:
+        return [1], [0] * n
+    if r < 0.2:
+        return [1], [1] * n
+    p = rng.choice([0.3, 0.5, 0.8])
+    return [1], [int(rng.random() < p) for _ in range(n)]
+
+
 def cases(tier, rng):
     from props_c08 import _uparea, _main, _strahler
     for ds, tag in _nets(tier, rng):
@@ -53,7 +67,8 @@ def cases(tier, rng):
             upa = [(-9999 if ds[i] < 0 else sum(w[x] for x in range(n) if ds[x] >= 0 and i in _path(ds, x))) for i in range(n)]
         main = _main(ds, upa, 0)
         so = _strahler(ds, [1] * n)
-        yield {"k": 1801, "args": [ds, sq, so, [rng.choice([1, 2, -1, -2, 3])]], "group": f"{tag}-streamorder"}
+        hm, mk = _sto_mask(rng, n)
+        yield {"k": 1801, "args": [ds, sq, so, [rng.choice([1, 2, -1, -2, 3])], hm, mk], "group": f"{tag}-streamorder" + ("-mask" if hm[0] else "")}
         # the area method is order-dependent: its threshold clause is only claimed for the orders the library itself
         # produces (cells sorted by distance to the pit); both kinds of order are still compared with the model
         lv = _level_order(ds, rng)
@@ -86,8 +101,9 @@ def cases(tier, rng):
         main = _main(ds, upa, 0)
         which = rng.choice(["sto", "area", "pfaf"])
         if which == "sto":
-            yield {"k": 1801, "args": [ds, nets.topo_order(ds), _strahler(ds, [1] * len(ds)), [rng.choice([1, 2, -1])]],
-                   "call": {"nr": nr, "nc": nc, "flw": flw}, "group": "raster-streamorder"}
+            hm, mk = _sto_mask(rng, len(ds))
+            yield {"k": 1801, "args": [ds, nets.topo_order(ds), _strahler(ds, [1] * len(ds)), [rng.choice([1, 2, -1])], hm, mk],
+                   "call": {"nr": nr, "nc": nc, "flw": flw}, "group": "raster-streamorder" + ("-mask" if hm[0] else "")}
         elif which == "area":
             if rng.random() < 0.5:
                 yield {"k": 1802, "args": [ds, nets.topo_order(ds), main, upa, [rng.choice([1, 3, 8])]],
@@ -133,7 +149,8 @@ def impl(case):
         return [[int(x) for x in np.asarray(v[0]).ravel()], idx_list(v[1])]
     if call is None:
         if k == 1801:
-            return fin(*call_impl(pb.subbasins_streamorder, arr, sq, np.array(a[2], dtype=np.uint8), None, a[3][0]))
+            mask = np.array(a[5], dtype=bool) if a[4][0] else None
+            return fin(*call_impl(pb.subbasins_streamorder, arr, sq, np.array(a[2], dtype=np.uint8), mask, a[3][0]))
         if k == 1802:
             sc = float((case.get("call2") or {}).get("scale", 1))
             return fin(*call_impl(pb.subbasins_area, arr, sq, ds_array(a[2]), np.array(a[3], dtype=np.float64) / sc, float(a[4][0]) / sc))
@@ -148,7 +165,8 @@ def impl(case):
             return r
     flw = pyflwdir.from_array(np.array(call["flw"], dtype=np.uint8).reshape(call["nr"], call["nc"]), ftype="d8")
     if k == 1801:
-        return fin(*call_impl(flw.subbasins_streamorder, min_sto=a[3][0]))
+        mask = np.array(a[5], dtype=bool).reshape(call["nr"], call["nc"]) if a[4][0] else None
+        return fin(*call_impl(flw.subbasins_streamorder, mask=mask, min_sto=a[3][0]))
     if k == 1802:
         upa = np.array(a[3], dtype=np.float64).reshape(call["nr"], call["nc"])
         return fin(*call_impl(flw.subbasins_area, float(a[4][0]), uparea=upa))
@@ -188,7 +206,11 @@ def oracle(case, out):
             so, ms = a[2], a[3][0]
             if ms < 0:
                 ms = max(so) + ms
-            want = sorted(i for i in range(n) if ds[i] >= 0 and so[i] >= ms and (so[i] != so[ds[i]] or ds[i] == i))
+            mask = a[5] if a[4][0] else None        # mask: consider only True cells
+            if mask is not None and any(not mask[i] for i in idxs):
+                return ("subbas:streamorder-outlet-outside-mask", f"outlets {sorted(idxs)} mask {mask}")
+            want = sorted(i for i in range(n) if ds[i] >= 0 and so[i] >= ms and (so[i] != so[ds[i]] or ds[i] == i)
+                          and (mask is None or mask[i]))
             if sorted(idxs) != want:
                 return ("subbas:streamorder-outlets", f"outlets {sorted(idxs)} expected {want}")
         else:
